@@ -55,16 +55,16 @@ SPEC = {
     "trusted_base": ["TypedValue (sequential): translator harness/c06/xlate (go/ast -> statement language, ~500 lines) and the language's semantics "
                      "Hive/Model/TypedCode.lean; the hand-written model Hive/Model/TypedValue.lean is PROVED equal to the translated method bodies "
                      "(C06_code_refines_model); translator + semantics are cross-checked on every run by executing the translated term against the real code",
-                     "TypedStore (Get/Has/Set/Delete/Iterate/DeletePrefix/Clear): translator harness/c06/xlate_ts (~500 lines) and semantics Hive/Model/TypedStoreCode.lean (incl. the underlying store's iteration loop calling the translated consumer closure); "
+                     "TypedStore (all eight methods): translator harness/c06/xlate_ts (~500 lines) and semantics Hive/Model/TypedStoreCode.lean (incl. the underlying store's iteration loop calling the translated consumer closure); "
                      "the hand-written model is PROVED equal to the translated bodies (C06_store_code_refines_model), cross-checked on every run against the real code",
-                     "hand-written models Hive/Model/TypedStore.lean (IterateKeys), TypedConc.lean, TypedRef.lean of kvstore/typedstore.go, the lock protocol and TypedValue[*T], "
+                     "hand-written models Hive/Model/TypedStore.lean (the underlying store: get/insert/erase/entries, iteration loop), TypedConc.lean, TypedRef.lean of kvstore/typedstore.go, the lock protocol and TypedValue[*T], "
                      "tied by differential execution with fault injection (harness/c06), regenerated skeletons / type facts and the lock-discipline obligation",
                      "Go toolchain, compiled Lean driver, Go's sync.RWMutex semantics as written in Hive/Model/TypedConc.lean"],
     "modelled": ["regenerated: the bodies of TypedValue.Get/Has/Compute/Set/Delete/cachedValue as terms of a statement language (conditions, early returns, nil dereferences, "
                  "which variable each call result lands in / each condition tests, error wrapping and ierrors.Is, store calls by position, store reporting its errors bare or wrapped)",
                  "TypedValue Get/Has/Set/Delete/Compute over one raw key with both cache fields, per-call fault vector, call trace",
                  "reference-typed V (TypedValue[*T]): generic model at V := Ref with a heap-dependent codec (Hive/Model/TypedRef.lean); caller mutations change the heap only; cache coherence / transparency are claimed only while the caller has not mutated a cached object (aliasing assumption), last-written and failure atomicity always",
-                 "TypedStore Get/Has/Set/Delete/Iterate/IterateKeys/DeletePrefix/Clear over a sorted association list; all but IterateKeys also regenerated from the source as terms of a second statement language (Iterate: consumer closure + store loop)",
+                 "TypedStore Get/Has/Set/Delete/Iterate/IterateKeys/DeletePrefix/Clear over a sorted association list; all eight also regenerated from the source as terms of a second statement language (Iterate/IterateKeys: consumer closure + store loop)",
                  "key codecs: fixed-width uint16 and a variable-length, not prefix-free one; value codecs: 8-byte uint64 and one with a zero-length encoding of 0",
                  "stores whose failing write took effect (dirty failures): stepD; error reporting and cache untouched proved, coherence loss shown by a witness",
                  "protocol: RLock fast path / Lock slow path with read, store-write and cache-update micro-steps; RLock without writer preference (more schedules)",
